@@ -26,7 +26,7 @@ CLAIMED = {
         text='closest_point on segment / ray / line (2D and 3D) and on a plane: proved for every object and query that the result lies '
              'on the object (admissible parameter) and that no admissible point is closer (squared distance), plus distance zero for '
              'queries on the object. Arc, polygon, segment-segment, plane-line and pole_of_inaccessibility are searched against exact '
-             'clamped projections, 200-400 samples and a 400-point interior search.',
+             'clamped projections, 200-400 samples and an independent branch-and-bound search (1e-3) for the pole.',
         note='Trusted: Coq kernel, py2coq, harness. Squared-distance form (sqrt monotone). Lipschitz continuity and the polylabel '
              'bound are validated only.',
         technique=T_Q),
